@@ -211,7 +211,9 @@ def run(report, p):
             b_ = [n for n in walk_no_nested(cm.node) if isinstance(n, ast.Assign) and len(n.targets) == 1 and isinstance(n.targets[0], ast.Name) and n.targets[0].id == asg[0].value.id]
             if len(b_) == 1 and gc.dominates(gc.node_for(b_[0]), gc.node_for(asg[0])):
                 val_txt = norm(b_[0].value)
-        oka = len(asg) == 1 and gc.dominates(gc.node_for(asg[0]), gc.node_for(wc)) and val_txt.endswith(f"[{norm(wc.func.value)}]")
+        hist_ = norm(wc.func.value)
+        own_refs = val_txt.endswith(f"[{hist_}]") or val_txt.endswith((f".setdefault({hist_}, [])", f".get({hist_}, [])", f".get({hist_}, ())"))  # references[history] in any of its spellings
+        oka = len(asg) == 1 and gc.dominates(gc.node_for(asg[0]), gc.node_for(wc)) and own_refs
         r5.check(oka, cm, asg[0] if asg else wc, "the list that is written does not receive the references collected for its own history", construct="references assigned before write")
     em, mdoc, cdoc, raw = documents(p)
     refs = [e for e in walk_elems(mdoc) if e.tag == "hashlistreference"]
